@@ -34,14 +34,14 @@ type CleanCase struct {
 
 var cleanTreePool = []string{
 	"bin/app", "bin/x", "bin/keep.txt", "dist/a.js", "dist/sub/b.js", "a/b/c.out", "a/b/keep", "build/x.o", "build/y.o", "build/z.c",
-	"src/main.c", "src/t.tmp", "deep/er/u.tmp", "README.md", "notes.tmp", "emptyd/",
+	"src/main.c", "src/t.tmp", "deep/er/u.tmp", "README.md", "notes.tmp", "emptyd/", "bin/app.sha256", "build.log", "dist.tar",
 }
-var cleanLiteralPool = []string{"bin/app", "dist", "a/b/c.out", "missing/file", "", ".", "./", "..", "../..", "spokfile", "bin", "src/main.c", "emptyd"}
+var cleanLiteralPool = []string{"bin/app", "dist", "a/b/c.out", "missing/file", "", ".", "./", "..", "../..", "spokfile", "bin", "src/main.c", "emptyd", "bin/app.sha256", "build", "build.log", "dist.tar"}
 var cleanNamedPool = []NamedOut{
 	{"OUT_X", `"./bin/x"`, "bin/x"}, {"EMPTY", `""`, ""}, {"DOT", `"."`, "."}, {"JD", `join(".", "dist")`, "dist"},
 	{"UP", `join("..")`, ".."}, {"DEEP", `"a/b"`, "a/b"}, {"NOPE", `"nothing/here"`, "nothing/here"}, {"JB", `join("build", "x.o")`, "build/x.o"},
 }
-var cleanGlobPool = []string{"build/*.o", "**/*.tmp", "none/*.zzz", "dist/**/*.js", "*.tmp"}
+var cleanGlobPool = []string{"build/*.o", "**/*.tmp", "none/*.zzz", "dist/**/*.js", "*.tmp", "s*", "*", "b*/*"}
 
 func genClean(t *rapid.T) CleanCase {
 	c := CleanCase{}
@@ -69,7 +69,11 @@ func genClean(t *rapid.T) CleanCase {
 		}
 	}
 	for _, g := range cleanGlobPool {
-		if rapid.IntRange(0, 2).Draw(t, "glob_"+g) == 2 {
+		wide := g == "s*" || g == "*" || g == "b*/*"
+		if safeOnly && (g == "s*" || g == "*") {
+			continue // they match the spokfile itself
+		}
+		if (!wide && rapid.IntRange(0, 2).Draw(t, "glob_"+g) == 2) || (wide && rapid.IntRange(0, 5).Draw(t, "wideglob_"+g) == 5) {
 			c.Globs = append(c.Globs, g)
 		}
 	}
@@ -171,9 +175,18 @@ func execClean(s *ev.Shard, b *sandbox.Box, c CleanCase) *rp.Fail {
 	for _, n := range c.Named {
 		D = append(D, desig{fmt.Sprintf("output %s := %s", n.Name, n.RHS), toSB(n.Value)})
 	}
+	// files matching an output glob are designated; a directory that matches the pattern may be
+	// removed as well (the statement speaks of files, the expansion also yields directories): it
+	// is allowed to go but not required to
+	var mayOnly []desig
 	for _, g := range c.Globs {
 		for _, m := range model.GlobFiles(entries, g) {
 			D = append(D, desig{fmt.Sprintf("file matching output glob %q", g), toSB(m)})
+		}
+		for _, e := range entries {
+			if e.IsDir && !strings.HasPrefix(e.Rel, ".") && model.Match(g, e.Rel) {
+				mayOnly = append(mayOnly, desig{fmt.Sprintf("directory matching output glob %q", g), toSB(e.Rel)})
+			}
 		}
 	}
 	protected := map[string]bool{".": true, projRel + "/spokfile": true}
@@ -236,6 +249,11 @@ func execClean(s *ev.Shard, b *sandbox.Box, c CleanCase) *rp.Fail {
 	for _, ch := range changes {
 		ok := sandbox.Under(ch.Path, cacheRel) || ch.Path == logRel
 		for _, d := range D {
+			if sandbox.Under(ch.Path, d.path) {
+				ok = true
+			}
+		}
+		for _, d := range mayOnly {
 			if sandbox.Under(ch.Path, d.path) {
 				ok = true
 			}
